@@ -145,7 +145,7 @@ def is_sym(v):
 
 # ---------------------------------------------------------------------------- schema
 INT_FIELDS = {'signal', 'priority', 'total_times', 'period', '$len', '$maxlen', 'qsize', 'unfinished',
-              'times_activated', 'maxsize'}
+              'times_activated', 'maxsize', 'order'}
 BOOL_FIELDS = {'ignored', 'instrumented', 'live_spy', 'live_trace', 'spied_on', 'alive', 'daemon', 'flag',
                'hook', 'start', 'internal', 'recall', 'post_lifo', 'post_fifo', 'post_defer', 'deferred',
                'started', '_is_atomic'}
@@ -168,7 +168,7 @@ FIELD_PYTYPE = {
     'payload': None, 'datetime': 'datetime', 'start_state': 'str', 'end_state': 'str',
     'live_spy_callback': 'fn', 'live_trace_callback': 'fn', 'last_live_trace_datetime': 'datetime',
     'state_fn': 'state', '_queue': 'Queue', 'fn': 'fn', 'content': None, 'target': 'fn',
-    'instance': None, 'klass': 'class', '_lock': 'RLock', '_value': None, '_initial_value': None,
+    'instance': None, 'klass': 'class', 'mutex': 'Lock', '_lock': 'RLock', '_value': None, '_initial_value': None,
 }
 
 
@@ -692,8 +692,8 @@ unbox = z3.Function('unbox_int', Ref, z3.IntSort())
 
 BUILTIN_NAMES = {'len', 'id', 'isinstance', 'hasattr', 'type', 'map', 'list', 'reversed', 'range', 'str', 'callable',
                  'print', 'pp', 'pprint', 'setattr', 'getattr', 'int', 'copy', 'wraps', 'super', 'enumerate',
-                 'sorted', 'set', 'True', 'False'}
-MODULE_NAMES = {'time', 'uuid', 're', 'inspect', 'json', 'stdlib_datetime', 'traceback', 'sys'}
+                 'sorted', 'set', 'True', 'False', 'next'}
+MODULE_NAMES = {'itertools', 'time', 'uuid', 're', 'inspect', 'json', 'stdlib_datetime', 'traceback', 'sys'}
 CLASS_ALIASES = {'HsmEvent': 'Event', 'ThreadEvent': 'ThreadEvent', 'Thread': 'Thread', 'deque': 'deque',
                  'Queue': 'Queue', 'PriorityQueue': 'PriorityQueue', 'RLock': 'RLock', 'OrderedDict': 'OrderedDict',
                  'RuntimeError': 'RuntimeError', 'LookupError': 'LookupError', 'Exception': 'Exception',
